@@ -337,6 +337,17 @@ def _add(module: Module, val: ModuleAttr) -> ModuleAttr:
         # Nonetheless gotta raise an error if we get here, somehow.
         _attr_type_error(val)
 
+    # Remove any prior attribute of the same name, which may be of a different type, from its type-specific container
+    for ctr in (
+        module.ports,
+        module.signals,
+        module.instances,
+        module.instarrays,
+        module.instbundles,
+        module.bundles,
+    ):
+        ctr.pop(val.name, None)
+
     # Add it to the module namespace, and the type-specific container
     type_ctr[val.name] = val
     module.namespace[val.name] = val
